@@ -28,7 +28,14 @@ func behaviour(resp *sb.Response) string {
 	var b strings.Builder
 	for _, r := range resp.Runs {
 		cls, kind, msg := px.OutcomeClass(r.Outcome)
-		fmt.Fprintf(&b, "[%s] %s/%s/%q out=%q\n", r.Backend, cls, kind, msg, strings.Join(r.Writes, ""))
+		fmt.Fprintf(&b, "[%s] %s/%s/%q out=%q", r.Backend, cls, kind, msg, strings.Join(r.Writes, ""))
+		if len(r.Triggers) > 0 {
+			fmt.Fprintf(&b, " triggers=%v", trigText(r.Triggers))
+		}
+		if len(r.Annotations) > 0 {
+			fmt.Fprintf(&b, " annotations=%q", r.Annotations)
+		}
+		b.WriteString("\n")
 	}
 	return b.String()
 }
@@ -282,4 +289,20 @@ func TestTableShipped(t *testing.T) {
 		}
 	}
 	col.Done(t)
+}
+
+// trigText renders trigger registrations without their spans (a printed program has a new layout).
+func trigText(ts []sb.TriggerCall) []string {
+	var out []string
+	for _, t := range ts {
+		out = append(out, fmt.Sprintf("%s@%s(%s)", t.Callback, t.Trigger, strings.Join(t.Args, ",")))
+	}
+	return out
+}
+
+// Request: like ProgCase.Request, and the compiled function annotations are evaluated as well.
+func (c Case) Request(backends ...string) *sb.Request {
+	r := c.ProgCase.Request(backends...)
+	r.Annotations = true
+	return r
 }
